@@ -11,7 +11,7 @@ import (
 // ---- scenario description (fully serialisable: a replay file carries it) ----
 
 type stepSpec struct {
-	Op    string            `json:"op"` // put del delver tag untag trans mpu vers age
+	Op    string            `json:"op"` // put del delver delobjver tag untag trans mpu vers age fill
 	Key   string            `json:"key,omitempty"`
 	Size  int64             `json:"size,omitempty"`
 	Tags  map[string]string `json:"tags,omitempty"`
@@ -19,6 +19,8 @@ type stepSpec struct {
 	Ver   int               `json:"ver,omitempty"` // selector among existing versions (mod n); -1 = current
 	Days  int               `json:"days,omitempty"`
 	State string            `json:"state,omitempty"`
+	Split []int             `json:"split,omitempty"` // fill: rows of the n-th target key that stay on the earlier listing page (mod history length + 1)
+	Tail  int               `json:"tail,omitempty"`  // fill: filler rows after the last target key
 }
 
 type passSpec struct {
@@ -28,7 +30,8 @@ type passSpec struct {
 }
 
 type c25Scenario struct {
-	Index  int        `json:"index"`
+	Index   int        `json:"index"`
+	Flavour string     `json:"flavour,omitempty"` // "", tagedge, paged
 	Rules  []ruleSpec `json:"rules"`
 	Steps  []stepSpec `json:"steps"`
 	Passes []passSpec `json:"passes"`
@@ -37,30 +40,50 @@ type c25Scenario struct {
 var (
 	c25Keys     = []string{"logs/app.log", "logs/db.log", "tmp/a", "data/x.bin", "log", "Logs/upper"}
 	c25Prefixes = []string{"", "", "", "logs/", "tmp/", "log", "data/x", "nomatch/", "logs/app", "l", "Logs/"}
-	c25TagSets  = []map[string]string{nil, {"env": "prod"}, {"env": "dev"}, {"env": "prod", "tier": "cold"}, {"tier": "cold"}}
-	c25TagPreds = []kv{{"env", "prod"}, {"env", "dev"}, {"tier", "cold"}}
+	c25TagSets  = []map[string]string{nil, {"env": "prod"}, {"env": "dev"}, {"env": "prod", "tier": "cold"}, {"tier": "cold"}, {"scratch": ""}, {"owner": "ops"}, {"env": "", "tier": "cold"}}
+	c25TagPreds = []kv{{"env", "prod"}, {"env", "dev"}, {"tier", "cold"}, {"scratch", ""}, {"env", ""}}
 	c25Sizes    = []int64{0, 40, 100, 101, 499, 500, 600, 2000}
 	c25GT       = []int64{0, 50, 100}
 	c25LT       = []int64{101, 500, 1000}
 	c25Classes  = []string{"STANDARD_IA", "GLACIER", "DEEP_ARCHIVE", "ONEZONE_IA"}
 )
 
+// c25Lists are the value pools a flavour draws rule filters and object tag
+// sets from.
+type c25Lists struct {
+	Prefixes []string
+	TagSets  []map[string]string
+	TagPreds []kv
+}
+
+var c25General = &c25Lists{Prefixes: c25Prefixes, TagSets: c25TagSets, TagPreds: c25TagPreds}
+
+// c25TagEdge: filter tags with EMPTY values, tag sets that overlap the filter
+// tags only partially (key present with another value, key absent, key in
+// another case, one of two filter tags present), objects without any tag.
+var c25TagEdge = &c25Lists{
+	Prefixes: []string{"", "", "", "", "logs/", "l", "tmp/", "data/x", "nomatch/"},
+	TagSets: []map[string]string{nil, nil, nil, {"scratch": ""}, {"scratch": "", "env": "prod"}, {"env": ""}, {"env": "prod"}, {"tier": "cold"},
+		{"env": "prod", "tier": "cold"}, {"env": "prod", "tier": ""}, {"owner": "ops"}, {"scratch": "x"}, {"Scratch": ""}, {"tier": "", "scratch": "", "env": ""}},
+	TagPreds: []kv{{"scratch", ""}, {"scratch", ""}, {"env", ""}, {"tier", ""}, {"env", "prod"}, {"tier", "cold"}, {"owner", "ops"}, {"scratch", "x"}},
+}
+
 func i32(v int) *int32 { x := int32(v); return &x }
 func i64(v int64) *int64 { return &v }
 func iptr(v int) *int { return &v }
 func sptr(s string) *string { return &s }
 
-func genFilter(rg *vkit.Rand, allowTag, allowSize bool) (*string, *filterSpec) {
+func genFilter(rg *vkit.Rand, L *c25Lists, allowTag, allowSize bool) (*string, *filterSpec) {
 	// returns (legacyPrefix, filter): exactly one is non-nil
 	switch c := rg.Intn(10); {
 	case c == 0:
-		return sptr(vkit.Pick(rg, c25Prefixes)), nil
+		return sptr(vkit.Pick(rg, L.Prefixes)), nil
 	case c <= 3:
-		return nil, &filterSpec{Prefix: sptr(vkit.Pick(rg, c25Prefixes))}
+		return nil, &filterSpec{Prefix: sptr(vkit.Pick(rg, L.Prefixes))}
 	case c == 4:
 		return nil, &filterSpec{} // empty filter: whole bucket
 	case c == 5 && allowTag:
-		t := vkit.Pick(rg, c25TagPreds)
+		t := vkit.Pick(rg, L.TagPreds)
 		return nil, &filterSpec{Tag: &t}
 	case c == 6 && allowSize:
 		if rg.Bool() {
@@ -70,12 +93,12 @@ func genFilter(rg *vkit.Rand, allowTag, allowSize bool) (*string, *filterSpec) {
 	default:
 		a := &andSpec{}
 		if rg.Chance(60) {
-			a.Prefix = sptr(vkit.Pick(rg, c25Prefixes))
+			a.Prefix = sptr(vkit.Pick(rg, L.Prefixes))
 		}
 		if allowTag && rg.Chance(60) {
-			a.Tags = append(a.Tags, vkit.Pick(rg, c25TagPreds))
+			a.Tags = append(a.Tags, vkit.Pick(rg, L.TagPreds))
 			if rg.Chance(25) {
-				o := vkit.Pick(rg, c25TagPreds)
+				o := vkit.Pick(rg, L.TagPreds)
 				if o.K != a.Tags[0].K {
 					a.Tags = append(a.Tags, o)
 				}
@@ -96,8 +119,42 @@ func genFilter(rg *vkit.Rand, allowTag, allowSize bool) (*string, *filterSpec) {
 	}
 }
 
+// genTagFilter builds a filter that always carries 1-3 tag predicates (single
+// Tag, or And with optional prefix / size bounds).
+func genTagFilter(rg *vkit.Rand, L *c25Lists) *filterSpec {
+	if rg.Chance(45) {
+		t := vkit.Pick(rg, L.TagPreds)
+		return &filterSpec{Tag: &t}
+	}
+	a := &andSpec{}
+	if rg.Chance(50) {
+		a.Prefix = sptr(vkit.Pick(rg, L.Prefixes))
+	}
+	n := rg.Range(1, 3)
+	for tries := 0; len(a.Tags) < n && tries < 12; tries++ {
+		t := vkit.Pick(rg, L.TagPreds)
+		dup := false
+		for _, o := range a.Tags {
+			if o.K == t.K {
+				dup = true
+			}
+		}
+		if !dup {
+			a.Tags = append(a.Tags, t)
+		}
+	}
+	if rg.Chance(25) {
+		if rg.Bool() {
+			a.SizeGT = i64(vkit.Pick(rg, c25GT))
+		} else {
+			a.SizeLT = i64(vkit.Pick(rg, c25LT))
+		}
+	}
+	return &filterSpec{And: a}
+}
+
 // genRule builds one S3-valid rule. focus biases the action mix.
-func genRule(rg *vkit.Rand, id int, focus string) ruleSpec {
+func genRule(rg *vkit.Rand, L *c25Lists, id int, focus string, forceTag bool) ruleSpec {
 	r := ruleSpec{ID: fmt.Sprintf("r%d", id), Enabled: !rg.Chance(12)}
 	kind := focus
 	if kind == "" {
@@ -105,7 +162,10 @@ func genRule(rg *vkit.Rand, id int, focus string) ruleSpec {
 	}
 	wantAbort := kind == "abort" || (kind == "mixed" && rg.Chance(30))
 	wantMarker := kind == "marker"
-	r.LegacyPrefix, r.Filter = genFilter(rg, !wantAbort && !wantMarker, !wantAbort)
+	r.LegacyPrefix, r.Filter = genFilter(rg, L, !wantAbort && !wantMarker, !wantAbort)
+	if forceTag && !wantAbort && !wantMarker {
+		r.LegacyPrefix, r.Filter = nil, genTagFilter(rg, L)
+	}
 	if wantAbort {
 		r.AbortDays = i32(rg.Range(1, 3))
 	}
@@ -172,8 +232,8 @@ func genRule(rg *vkit.Rand, id int, focus string) ruleSpec {
 	return r
 }
 
-func genPut(rg *vkit.Rand, key string) stepSpec {
-	s := stepSpec{Op: "put", Key: key, Size: vkit.Pick(rg, c25Sizes), Tags: vkit.Pick(rg, c25TagSets)}
+func genPut(rg *vkit.Rand, L *c25Lists, key string) stepSpec {
+	s := stepSpec{Op: "put", Key: key, Size: vkit.Pick(rg, c25Sizes), Tags: vkit.Pick(rg, L.TagSets)}
 	if rg.Chance(15) {
 		s.Class = vkit.Pick(rg, c25Classes)
 	}
@@ -183,11 +243,23 @@ func genPut(rg *vkit.Rand, key string) stepSpec {
 // genScenario derives scenario #idx from the run PRNG. Flavours bias towards
 // the parts of the statement: plain expiry/transition, version histories with
 // noncurrent rules and timestamp perturbation, delete-marker clean-up,
-// incomplete uploads, and replacement between listing and action.
-func genScenario(root *vkit.Rand, idx int) c25Scenario {
+// incomplete uploads, and replacement between listing and action. Two extra
+// flavours (extra != "") are appended to every run: "tagedge" (every rule
+// carries tag predicates, many with empty values; tag sets that overlap them
+// partially or not at all) and "paged" (a versioned bucket padded with filler
+// keys so that its listings span several pages and the scenario keys' version
+// histories sit on both sides of page boundaries).
+func genScenario(root *vkit.Rand, idx int, extra string) c25Scenario {
 	rg := root.Fork(fmt.Sprintf("c25-scenario-%d", idx))
-	sc := c25Scenario{Index: idx}
+	sc := c25Scenario{Index: idx, Flavour: extra}
 	flavour := []string{"current", "versions", "versions", "perturb", "marker", "abort", "replace", "mixed"}[idx%8]
+	L := c25General
+	switch extra {
+	case "tagedge":
+		flavour, L = extra, c25TagEdge
+	case "paged":
+		flavour = extra
+	}
 
 	// versioning
 	state := "off"
@@ -196,6 +268,10 @@ func genScenario(root *vkit.Rand, idx int) c25Scenario {
 		state = vkit.Pick(rg, []string{"enabled", "enabled", "enabled", "suspended-later"})
 	case "current", "replace", "mixed", "abort":
 		state = vkit.Pick(rg, []string{"off", "off", "enabled", "suspended-later"})
+	case "tagedge":
+		state = vkit.Pick(rg, []string{"off", "enabled", "enabled", "suspended-later"})
+	case "paged":
+		state = "enabled"
 	}
 	if state != "off" {
 		sc.Steps = append(sc.Steps, stepSpec{Op: "vers", State: "enabled"})
@@ -203,6 +279,9 @@ func genScenario(root *vkit.Rand, idx int) c25Scenario {
 
 	// rules
 	nRules := rg.Range(1, 3)
+	if flavour == "paged" {
+		nRules = rg.Range(2, 3)
+	}
 	for i := 0; i < nRules; i++ {
 		focus := ""
 		if i == 0 {
@@ -217,9 +296,38 @@ func genScenario(root *vkit.Rand, idx int) c25Scenario {
 				focus = "marker"
 			case "abort":
 				focus = "abort"
+			case "paged":
+				focus = "marker"
 			}
 		}
-		sc.Rules = append(sc.Rules, genRule(rg, i, focus))
+		if flavour == "paged" && i == 1 {
+			// the sweeps over current objects (ListObjects) and over versions
+			// (ListObjectVersions) both get multi-page listings to act on
+			focus = []string{"exp", "nc", "exp+trans", "nc+nctrans"}[idx%4]
+		}
+		if flavour == "tagedge" {
+			focus = vkit.Pick(rg, []string{"exp", "exp", "exp+trans", "trans", "nc", "nctrans", "nc+nctrans"})
+		}
+		sc.Rules = append(sc.Rules, genRule(rg, L, i, focus, flavour == "tagedge"))
+	}
+	if flavour == "tagedge" {
+		sc.Rules[0].Enabled = true
+	}
+	if flavour == "paged" {
+		// the delete-marker clean-up rule mostly selects the whole bucket, in
+		// each of the ways "no prefix" can be written
+		sc.Rules[0].Enabled = true
+		sc.Rules[1].Enabled = true
+		switch rg.Intn(10) {
+		case 0, 1, 2:
+			sc.Rules[0].LegacyPrefix, sc.Rules[0].Filter = nil, &filterSpec{}
+		case 3, 4:
+			sc.Rules[0].LegacyPrefix, sc.Rules[0].Filter = nil, &filterSpec{Prefix: sptr("")}
+		case 5:
+			sc.Rules[0].LegacyPrefix, sc.Rules[0].Filter = sptr(""), nil
+		case 6:
+			sc.Rules[0].LegacyPrefix, sc.Rules[0].Filter = nil, &filterSpec{And: &andSpec{Prefix: sptr("")}}
+		}
 	}
 	if flavour == "perturb" {
 		// make the retention count bite: a keep-N noncurrent rule on a filter
@@ -236,6 +344,12 @@ func genScenario(root *vkit.Rand, idx int) c25Scenario {
 	keys := append([]string{}, c25Keys...)
 	vkit.Shuffle(rg, keys)
 	nKeys := rg.Range(1, 3)
+	if flavour == "tagedge" {
+		nKeys = rg.Range(2, 3)
+	}
+	if flavour == "paged" {
+		nKeys = 2
+	}
 	keys = keys[:nKeys]
 	aged := 0
 	age := func(max int) {
@@ -253,17 +367,33 @@ func genScenario(root *vkit.Rand, idx int) c25Scenario {
 		if flavour == "perturb" {
 			n = rg.Range(4, 6)
 		}
+		if flavour == "tagedge" {
+			n = rg.Range(1, 4)
+		}
+		pagedShape := -1
+		if flavour == "paged" {
+			// current delete marker over 1-3 older object versions / sole delete
+			// marker / delete marker over an older delete marker / free history
+			pagedShape = []int{0, 0, 0, 0, 0, 1, 2, 3, 3}[rg.Intn(9)]
+			if k == keys[0] {
+				pagedShape = 0
+			}
+			n = rg.Range(1, 3)
+			if pagedShape == 3 {
+				n = rg.Range(1, 4)
+			}
+		}
 		for i := 0; i < n; i++ {
 			c := rg.Intn(100)
 			switch {
-			case i == 0 || c < 50 || flavour == "perturb":
-				sc.Steps = append(sc.Steps, genPut(rg, k))
+			case i == 0 || c < 50 || flavour == "perturb" || (pagedShape >= 0 && pagedShape < 3):
+				sc.Steps = append(sc.Steps, genPut(rg, L, k))
 			case c < 65:
 				sc.Steps = append(sc.Steps, stepSpec{Op: "del", Key: k})
 			case c < 72:
 				sc.Steps = append(sc.Steps, stepSpec{Op: "delver", Key: k, Ver: rg.Intn(6)})
 			case c < 84:
-				sc.Steps = append(sc.Steps, stepSpec{Op: "tag", Key: k, Ver: rg.Range(-1, 5), Tags: vkit.Pick(rg, c25TagSets)})
+				sc.Steps = append(sc.Steps, stepSpec{Op: "tag", Key: k, Ver: rg.Range(-1, 5), Tags: vkit.Pick(rg, L.TagSets)})
 			case c < 92:
 				sc.Steps = append(sc.Steps, stepSpec{Op: "trans", Key: k, Ver: rg.Range(-1, 5), Class: vkit.Pick(rg, c25Classes)})
 			default:
@@ -271,6 +401,17 @@ func genScenario(root *vkit.Rand, idx int) c25Scenario {
 			}
 			if rg.Chance(35) {
 				age(3)
+			}
+		}
+		if pagedShape >= 0 && pagedShape < 3 {
+			sc.Steps = append(sc.Steps, stepSpec{Op: "del", Key: k})
+			if pagedShape == 2 {
+				sc.Steps = append(sc.Steps, stepSpec{Op: "del", Key: k})
+			}
+			if pagedShape >= 1 {
+				for j := 0; j < 3; j++ {
+					sc.Steps = append(sc.Steps, stepSpec{Op: "delobjver", Key: k})
+				}
 			}
 		}
 		if flavour == "marker" && rg.Chance(80) {
@@ -289,7 +430,7 @@ func genScenario(root *vkit.Rand, idx int) c25Scenario {
 			m := rg.Range(1, 4)
 			for j := 0; j < m; j++ {
 				if rg.Chance(70) {
-					sc.Steps = append(sc.Steps, stepSpec{Op: "tag", Key: k, Ver: j, Tags: vkit.Pick(rg, c25TagSets)})
+					sc.Steps = append(sc.Steps, stepSpec{Op: "tag", Key: k, Ver: j, Tags: vkit.Pick(rg, L.TagSets)})
 				} else {
 					sc.Steps = append(sc.Steps, stepSpec{Op: "trans", Key: k, Ver: j, Class: vkit.Pick(rg, c25Classes)})
 				}
@@ -303,21 +444,28 @@ func genScenario(root *vkit.Rand, idx int) c25Scenario {
 		}
 		if state == "suspended-later" && rg.Chance(50) {
 			sc.Steps = append(sc.Steps, stepSpec{Op: "vers", State: "suspended"})
-			sc.Steps = append(sc.Steps, genPut(rg, k))
+			sc.Steps = append(sc.Steps, genPut(rg, L, k))
 			if rg.Chance(30) {
 				sc.Steps = append(sc.Steps, stepSpec{Op: "vers", State: "enabled"})
-				sc.Steps = append(sc.Steps, genPut(rg, k))
+				sc.Steps = append(sc.Steps, genPut(rg, L, k))
 			}
 		}
 	}
+	if flavour == "paged" {
+		f := stepSpec{Op: "fill", Tail: rg.Intn(40)}
+		for range keys {
+			f.Split = append(f.Split, []int{1, 1, 1, 1, 2, 3, 0, -1}[rg.Intn(8)])
+		}
+		sc.Steps = append(sc.Steps, f)
+	}
 	// let time pass so that day-based rules can be due for some items only
-	if rg.Chance(70) || flavour == "replace" {
+	if rg.Chance(70) || flavour == "replace" || flavour == "paged" {
 		d := rg.Range(1, 5)
 		sc.Steps = append(sc.Steps, stepSpec{Op: "age", Days: d})
 		aged += d
 	}
 	if flavour == "mixed" && rg.Chance(50) {
-		sc.Steps = append(sc.Steps, genPut(rg, keys[0]))
+		sc.Steps = append(sc.Steps, genPut(rg, L, keys[0]))
 	}
 
 	// passes
@@ -400,6 +548,9 @@ func (sc *c25Scenario) shape() string {
 		}
 		if s.Op == "vers" {
 			o = "v:" + s.State
+		}
+		if s.Op == "fill" {
+			o = fmt.Sprintf("fill%v+%d", s.Split, s.Tail)
 		}
 		ops = append(ops, o)
 	}
